@@ -23,6 +23,25 @@ const flipYAML = `{"name":"flip","nodes":{
  "start":{"branching":{"type":"message","branches":[{"pattern":{"go":"?x"},"target":"s2"}]}},
  "s2":{"branching":{"type":"message","branches":[{"pattern":{"go":"?y"},"target":"start"}]}}}}`
 
+// "anon": like flip, but it binds nothing (anonymous variables)
+const anonYAML = `{"name":"anon","nodes":{
+ "start":{"branching":{"type":"message","branches":[{"pattern":{"go":"?"},"target":"s2"}]}},
+ "s2":{"branching":{"type":"message","branches":[{"pattern":{"go":"?"},"target":"start"}]}}}}`
+
+func anonSpec() *core.Spec {
+	s := &core.Spec{
+		Name: "anon",
+		Nodes: map[string]*core.Node{
+			"start": {Branches: &core.Branches{Type: "message", Branches: []*core.Branch{{Pattern: map[string]interface{}{"go": "?"}, Target: "s2"}}}},
+			"s2":    {Branches: &core.Branches{Type: "message", Branches: []*core.Branch{{Pattern: map[string]interface{}{"go": "?"}, Target: "start"}}}},
+		},
+	}
+	if err := s.Compile(context.Background(), nil, true); err != nil {
+		panic(err)
+	}
+	return s
+}
+
 func flipSpec() *core.Spec {
 	s := &core.Spec{
 		Name: "flip",
@@ -45,8 +64,14 @@ func c16Service(ctx context.Context) (*Service, func()) {
 	}
 	if verif.Symbolic() {
 		verifSpecs["flip"] = flipSpec()
-	} else if err := os.WriteFile(filepath.Join(dir, "flip.yaml"), []byte(flipYAML), 0644); err != nil {
-		panic(err)
+		verifSpecs["anon"] = anonSpec()
+	} else {
+		if err := os.WriteFile(filepath.Join(dir, "flip.yaml"), []byte(flipYAML), 0644); err != nil {
+			panic(err)
+		}
+		if err := os.WriteFile(filepath.Join(dir, "anon.yaml"), []byte(anonYAML), 0644); err != nil {
+			panic(err)
+		}
 	}
 	s, err := NewService(ctx, dir, filepath.Join(dir, "crew.db"), "")
 	if err != nil {
@@ -274,3 +299,80 @@ func VerifC16Concurrent() {
 }
 
 var _ = crew.NewSpecSource
+
+// VerifC16Partial: a write that fails for ONE of the machines a message moved: machine "b" (spec flip) binds
+// the message's value, machine "a" (spec anon) binds nothing; a message whose value cannot be serialised
+// (NaN) makes b's record unwritable.  The operation fails and must leave BOTH machines as they were, in
+// memory and in the store.
+func VerifC16Partial() {
+	verif.MapOrderInsertion(true)
+	ctx, cancel := context.WithCancel(context.Background())
+	defer cancel()
+	s, cleanup := c16Service(ctx)
+	defer cleanup()
+	verif.Assert("add-a", s.AddMachine(ctx, "anon", "a", "", nil) == nil)
+	verif.Assert("add-b", s.AddMachine(ctx, "flip", "b", "", nil) == nil)
+	n := 1 + verif.Choose("nmsgs", 2)
+	for i := 0; i < n; i++ {
+		tag := "msg" + string(rune('0'+i))
+		var v interface{} = 1.0
+		if verif.Choose(tag+".nan", 2) == 1 {
+			v = verif.NaN()
+		}
+		msg := map[string]interface{}{"go": v}
+		if verif.Choose(tag+".to", 2) == 1 {
+			msg["to"] = "b"
+		}
+		before := snapMemoryNodes(s)
+		_, err := s.Process(ctx, msg, nil)
+		after := snapMemoryNodes(s)
+		stored, ok := snapStoreNodes(ctx, s)
+		verif.Assert("store-readable", ok)
+		if err != nil || !sameNodes(after, stored) {
+			verif.Reach("write-failed")
+		}
+		verif.Assert("memory-equals-store", sameNodes(after, stored))
+		if err != nil {
+			// the write failed (for one machine): nobody advanced, neither in memory nor in the store
+			verif.Assert("failed-operation-leaves-crew-as-it-was", sameNodes(before, after) && sameNodes(before, stored))
+		}
+		if !sameNodes(before, stored) && !sameNodes(after, before) {
+			verif.Note("advanced")
+		}
+	}
+	verif.Reach("end")
+}
+
+func snapMemoryNodes(s *Service) map[string]string {
+	m := map[string]string{}
+	s.crew.RLock()
+	for mid, mach := range s.crew.Machines {
+		m[mid] = mach.State.NodeName
+	}
+	s.crew.RUnlock()
+	return m
+}
+
+func snapStoreNodes(ctx context.Context, s *Service) (map[string]string, bool) {
+	mss, err := s.store.GetCrew(ctx, s.crewName)
+	if err != nil {
+		return nil, false
+	}
+	m := map[string]string{}
+	for _, ms := range mss {
+		m[ms.Mid] = ms.NodeName
+	}
+	return m, true
+}
+
+func sameNodes(a, b map[string]string) bool {
+	if len(a) != len(b) {
+		return false
+	}
+	for _, mid := range []string{"a", "b"} {
+		if a[mid] != b[mid] {
+			return false
+		}
+	}
+	return true
+}
